@@ -300,6 +300,8 @@ def value_obj(v: dict):
         return _Other()
     if k == "tup":
         return tuple(value_obj(x) for x in v["elts"])
+    if k == "list":  # an unhashable non-array value
+        return [1, 2]
     raise ValueError(v)
 
 
@@ -309,7 +311,7 @@ def value_sx(v: dict) -> str:
         return f"(arr ({v['lib']} {v['dt']} ({' '.join(sx_int(s) for s in v['shape'])})))"
     if k == "none":
         return "none"
-    if k == "other":
+    if k in ("other", "list"):
         return "other"
     if k == "tup":
         return "(tup " + " ".join(value_sx(x) for x in v["elts"]) + ")"
